@@ -505,8 +505,11 @@ class Parser:
                 items = []
                 while not self.at("]"):
                     items.append(self.expr())
-                    if self.at(";"):
-                        raise Unsupported("vec![x; n]")
+                    if self.at(";") and len(items) == 1:
+                        self.eat()
+                        n = self.expr()
+                        self.eat("]")
+                        return ("vecrep", items[0], n)
                     if self.at(","):
                         self.eat()
                 self.eat("]")
@@ -774,6 +777,10 @@ class Emitter:
             if any(not isinstance(l, str) for l in lines):
                 raise Unsupported("`?` inside a closure")
             return "(fun %s => do %s%spure %s)" % (" ".join(names), body, "; " if body else "", b), "FM"
+        if k == "vecrep":
+            x, _ = self.expr(e[1], pre, W)                        # Rust evaluates the element first, then the length
+            n, _ = self.expr(e[2], pre, U)
+            return "(Array.replicate %s %s)" % (n, x), A
         if k == "veclit":
             vals = [self.expr(x, pre, W)[0] for x in e[1]]
             return "#[" + ", ".join(vals) + "]", A
@@ -2057,6 +2064,12 @@ def resolve_tries(lines):
 
 def translate(src, cfg, calls, consts, structs):
     params_txt, ret_txt, body_txt = find_fn(src, cfg.get("impl"), cfg["fn"])
+    for pat, repl in cfg.get("source_subst", []):
+        # a part of the body outside the translated subset (floating point) is replaced by a NAMED parameter; the pattern
+        # must match exactly once, otherwise the function is not translated
+        body_txt, nsub = re.subn(pat, repl, body_txt)
+        if nsub != 1:
+            raise Unsupported("source_subst %r matched %d times" % (pat, nsub))
     em = Emitter(cfg, calls, consts, structs)
     # signature
     binders = ["(m : Mode)"] + list(cfg.get("binders", []))
@@ -2070,6 +2083,8 @@ def translate(src, cfg, calls, consts, structs):
         if isinstance(t, tuple) and t[0] == "T":
             return ("T", [alias(x) for x in t[1]])
         return t
+    for xn, xv in cfg.get("params_extra", {}).items():
+        em.env[xn] = xv                                           # named parameters introduced by `source_subst`
     p = Parser(lex(params_txt))
     while p.peek()[0] != "eof":
         if p.at("&"):
